@@ -33,6 +33,17 @@ def make_cases(rng, tier):
     # corpus
     reads.append({"kind": "corpus:D4-bytewise", "segs": [bytes([b]) for b in b":-5\r\n"], "expect": "frame:I-5;clean"})
     reads.append({"kind": "corpus:empty", "segs": [], "expect": "clean"})
+    # every array of up to 3 minimal-length elements, alone in the stream (whole and bytewise)
+    tiny = [("S", b""), ("E", b""), ("I", 0), ("N",), ("B", b"")]
+    import itertools
+    for k in (0, 1, 2, 3):
+        for combo in itertools.product(tiny, repeat=k):
+            f = ("A", list(combo))
+            data = G.enc(f)
+            want = "frame:" + G.show(f) + ";clean"
+            reads.append({"kind": "tiny:whole", "segs": [data], "expect": want})
+            if k <= 2:
+                reads.append({"kind": "tiny:bytewise", "segs": [data[i:i + 1] for i in range(len(data))], "expect": want})
     for i in range(220 * n):
         frames = [G.gen_writable(rng) for _ in range(rng.rng(1, 4))]
         if i % 40 == 0:
